@@ -39,6 +39,19 @@ pub fn generate(repo: &PathBuf) -> Result<String, String> {
     let add_checked = calls_in_block(&add.block).methods.iter().any(|m| m == "checked_add");
     let sub_checked = calls_in_block(&sub.block).methods.iter().any(|m| m == "checked_sub");
 
+    // ant-cli/src/utils.rs collect_upload_summary: both loops must ACCUMULATE (`tokens_spent += …`)
+    let cli = std::fs::read_to_string(repo.join("ant-cli/src/utils.rs")).map_err(|e| format!("ant-cli/src/utils.rs: {e}"))?;
+    let cli_file = syn::parse_file(&cli).map_err(|e| format!("ant-cli/src/utils.rs: {e}"))?;
+    let cus = free_fn(&cli_file, "collect_upload_summary")?;
+    let body = quote::ToTokens::to_token_stream(&cus.block).to_string().replace(' ', "");
+    let n_acc = body.matches("tokens_spent+=").count();
+    let n_assign = body.matches("tokens_spent=").count(); // plain assignments (the `+=` form does not contain this substring)
+    let n_loops = body.matches("UploadComplete(").count();
+    if n_loops == 0 {
+        return Err("collect_upload_summary: no UploadComplete arm found".into());
+    }
+    let cli_accumulates = n_acc == n_loops && n_assign == 0;
+
     let mut s = header(rel);
     s.push_str("namespace SafeNet.Gen.Amount\n");
     s.push_str(&format!("/-- `TOKEN_TO_RAW_POWER_OF_10_CONVERSION` -/\ndef powConv : Nat := {pow}\n"));
@@ -48,6 +61,7 @@ pub fn generate(repo: &PathBuf) -> Result<String, String> {
     s.push_str(&format!("/-- `from_str`: units + remainder goes through `checked_add` (otherwise wrapping `+`) -/\ndef finalAddChecked : Bool := {}\n", lean_bool(final_add_checked)));
     s.push_str(&format!("/-- `AttoTokens::checked_add` delegates to `Amount::checked_add` -/\ndef addIsChecked : Bool := {}\n", lean_bool(add_checked)));
     s.push_str(&format!("/-- `AttoTokens::checked_sub` delegates to `Amount::checked_sub` -/\ndef subIsChecked : Bool := {}\n", lean_bool(sub_checked)));
+    s.push_str(&format!("/-- ant-cli `collect_upload_summary`: every arm that consumes an `UploadComplete` event adds to the running total ({n_acc} of {n_loops} arms use `+=`, {n_assign} plain assignments) -/\ndef cliSummaryAccumulates : Bool := {}\n", lean_bool(cli_accumulates)));
     s.push_str("end SafeNet.Gen.Amount\n");
     Ok(s)
 }
